@@ -81,16 +81,17 @@ _warm()
     pre=["0 <= ci < 5", "0 <= bi < 5", "0 <= x <= 3", "0 <= g <= 3"],
     timeout=300,
     shard={"ci": [0, 1, 2, 3, 4], "bi": [0, 1, 2, 3, 4]},
-    covers="{% render %}: the partial's region equals a stand-alone render of the partial with globals + arguments only (it cannot see the caller's assigned/captured/counted/loop-bound names), and the caller's later output equals the caller without the render tag (nothing the partial binds is visible)",
+    covers="{% render %}: the partial's region equals a stand-alone render of the partial with globals + arguments only (it cannot see the caller's assigned/captured/counted/loop-bound names; render() and render_async()), and the caller's later output equals the caller without the render tag (nothing the partial binds is visible)",
     bounds="5 caller shapes x 5 partial bodies over the shared names a,b,c,k,z (assign, capture, increment/decrement, for, with, cycle, liquid, invocation inside nested caller loops with bodies reading forloop/parentloop); x, g printed ints 0..3",
-    grid=lambda: [(c, b, 1, 2) for c in range(5) for b in range(5)],
+    grid=lambda: [(c, b, 1, 2, a) for c in range(5) for b in range(5) for a in (False, True)],
 )
-def d_render_iso(ci: int, bi: int, x: int, g: int) -> bool:
+def d_render_iso(ci: int, bi: int, x: int, g: int, is_async: bool) -> bool:
     pre, post = CALLERS[ci]
     body = BODIES[bi]
     env = _env_for(body)
     try:
-        whole = _tpl(env, pre + "[{% render 'p', k: x %}]" + post).render(x=x, g=g)
+        wt = _tpl(env, pre + "[{% render 'p', k: x %}]" + post)
+        whole = drive(wt.render_async(x=x, g=g)) if is_async else wt.render(x=x, g=g)
         alone = _tpl(ENV_PLAIN, body).render(k=x, g=g, x=x)
         without = _tpl(ENV_PLAIN, pre + "[]" + post).render(x=x, g=g)
     except LiquidError:
@@ -107,16 +108,17 @@ def d_render_iso(ci: int, bi: int, x: int, g: int) -> bool:
     pre=["0 <= ci < 5", "0 <= bi < 5", "0 <= x <= 3", "0 <= g <= 3"],
     timeout=300,
     shard={"ci": [0, 1, 2, 3, 4], "bi": [0, 1, 2, 3, 4]},
-    covers="{% macro %}/{% call %}: the macro body sees only globals and its arguments; nothing it assigns, captures or counts is visible to the caller afterwards",
+    covers="{% macro %}/{% call %}: the macro body sees only globals and its arguments; nothing it assigns, captures or counts is visible to the caller afterwards; render() and render_async()",
     bounds="5 caller shapes x 5 macro bodies (incl. invocation inside nested caller loops); x, g printed ints 0..3",
-    grid=lambda: [(c, b, 1, 2) for c in range(5) for b in range(5)],
+    grid=lambda: [(c, b, 1, 2, a) for c in range(5) for b in range(5) for a in (False, True)],
 )
-def d_macro_iso(ci: int, bi: int, x: int, g: int) -> bool:
+def d_macro_iso(ci: int, bi: int, x: int, g: int, is_async: bool) -> bool:
     pre, post = CALLERS[ci]
     body = MACRO_BODIES[bi]
     src = "{% macro m, k %}" + body + "{% endmacro %}" + pre + "[{% call m, x %}]" + post
     try:
-        whole = _tpl(ENV_PLAIN, src).render(x=x, g=g)
+        wt = _tpl(ENV_PLAIN, src)
+        whole = drive(wt.render_async(x=x, g=g)) if is_async else wt.render(x=x, g=g)
         alone = _tpl(ENV_PLAIN, body).render(k=x, g=g, x=x, args=[], kwargs={})
         without = _tpl(ENV_PLAIN, pre + "[]" + post).render(x=x, g=g)
     except LiquidError:
